@@ -77,10 +77,41 @@ pub fn run(o: &Opts) -> i32 {
     // names that are not units at all, near misses
     for n in ["", "s", "ss", "kilo", "millis", "kilokilometer", "meterss", "xyzzy", "mass", "millimass", "length", "kilolength"] { emit(n, &mut rng); }
     drop(emit);
+    // lookup is a function of the database it is asked on: two small databases that give the same names
+    // different values, asked alternately on one thread (and again after the big database above was used)
+    let mut dbs_checked = 0u64;
+    {
+        let mk = |k: &str, boxv: &str, extra: &str| -> rink_core::Context {
+            let mut c = rink_core::Context::new();
+            let text = format!("apple !\nk- {}\nkilo- k\nd- 1|10\nda- 10\nbox {} apple\nam 3 apple\nm 5 apple\n{}\n", k, boxv, extra);
+            let _ = c.load_definitions(&text);
+            c
+        };
+        let a = mk("1000", "6", "crate 2 box");
+        let b = mk("1024", "8", "crate 3 box\nkbox 7 apple");
+        let show = |v: Option<Number>| v.map(|n| fmt_number(&n)).unwrap_or_else(|| "none".into());
+        let names = ["kbox", "kiloboxs", "dam", "kcrate", "kcrates", "box", "kam", "kbox"];
+        let wa = ["6000/1 apple:1", "6000/1 apple:1", "3/10 apple:1", "12000/1 apple:1", "12000/1 apple:1", "6/1 apple:1", "3000/1 apple:1", "6000/1 apple:1"];
+        let wb = ["7/1 apple:1", "8192/1 apple:1", "3/10 apple:1", "24576/1 apple:1", "24576/1 apple:1", "8/1 apple:1", "3072/1 apple:1", "7/1 apple:1"];
+        for round in 0..3 {
+            for (i, n) in names.iter().enumerate() {
+                for (tag, c, want) in [("A", &a, wa[i]), ("B", &b, wb[i])] {
+                    dbs_checked += 1;
+                    let got = show(c.lookup(n));
+                    if got != want {
+                        nviol += 1;
+                        writeln!(orc, "{}", json!({"law": "lookup-depends-on-another-database", "name": n, "database": tag, "round": round, "impl": got, "spec": want})).unwrap();
+                    }
+                }
+            }
+            // interleave with the bundled database
+            let _ = ctx.lookup("kilometer"); let _ = ctx.lookup("dam");
+        }
+    }
     req.flush().unwrap(); imp.flush().unwrap(); orc.flush().unwrap();
     crate::util::write_json(&format!("{}/stats.json", o.out), &json!({"names": total, "resolved": resolved, "order_violations": nviol,
         "canonicalized": canon_some, "canonical_unresolvable": canon_unresolvable, "canonical_changes_value": canon_changed,
-        "bases": bases.len(), "prefixes": prefixes.len(), "exhaustive": !sample, "samples": samples}));
+        "two_database_lookups": dbs_checked, "bases": bases.len(), "prefixes": prefixes.len(), "exhaustive": !sample, "samples": samples}));
     0
 }
 
